@@ -1129,4 +1129,409 @@ theorem CS.capOk_run (c : TcpCfg) (hne : c.a ≠ c.b) (k : CapKey) (ls : List TL
   | nil => intro s h; exact h
   | cons l rest ih => intro s h; exact ih _ (CS.capOk_step c hne k s l h)
 
+/-! ### sequence numbers of the capture log -/
+
+def capPaySum (l : List CapT) : Nat := (l.map (fun r => r.payload.length)).sum
+
+/-- the records' sequence numbers follow the `uint32` counter discipline starting at `q` -/
+def CapSeq (q : Nat) : List CapT → Prop
+  | [] => True
+  | r :: rest => r.seq = q ∧ CapSeq ((q + r.payload.length) % 4294967296) rest
+
+theorem capSeq_of_wireSeq (k : CapKey) (q : Nat) (w : List (Int × Pkt)) (h : WireSeq q w) :
+    CapSeq q (w.map (recOf k)) := by
+  induction w generalizing q with
+  | nil => trivial
+  | cons e r ih => exact ⟨h.1, ih _ h.2⟩
+
+theorem capSeq_take (q : Nat) (l : List CapT) (i : Nat) (h : CapSeq q l) : CapSeq q (l.take i) := by
+  induction l generalizing q i with
+  | nil => simp; trivial
+  | cons r rest ih =>
+    cases i with
+    | zero => trivial
+    | succ j => exact ⟨h.1, ih _ j h.2⟩
+
+/-- record `i`'s sequence number is the start value plus the payload bytes of records `0..i-1`,
+    modulo 2^32 (every transmission counts, retransmissions too) -/
+theorem capSeq_getElem (q : Nat) (hq : q < 4294967296) (l : List CapT) (h : CapSeq q l) (i : Nat) (hi : i < l.length) :
+    l[i].seq = (q + capPaySum (l.take i)) % 4294967296 := by
+  induction l generalizing q i with
+  | nil => simp at hi
+  | cons r rest ih =>
+    cases i with
+    | zero => simp [capPaySum, h.1]; omega
+    | succ j =>
+      simp only [List.getElem_cons_succ, List.take_succ_cons]
+      rw [ih ((q + r.payload.length) % 4294967296) (by omega) h.2 j (by simpa using hi)]
+      simp only [capPaySum, List.map_cons, List.sum_cons]
+      omega
+
+/-! ### the capture file of a log, and the sends it stands for -/
+
+/-- the bytes the world driver appends for one record (`Drv/Kernel.lean`: `Pcap.recordTcp` with
+    the dotted-quad addresses turned into numbers by `ip`) -/
+def CapT.bytes (ip : String → Nat) (r : CapT) : List UInt8 :=
+  Pcap.recordTcp r.t.toNat (ip r.src.addr) (ip r.dst.addr) r.src.port r.dst.port r.seq r.payload
+
+/-- the capture file: header, then the records in emission order -/
+def capFile (ip : String → Nat) (log : List CapT) : List UInt8 :=
+  Pcap.fileHeader ++ (log.map (CapT.bytes ip)).flatten
+
+/-- a record as a `Send` of the capture specification (Props/C19.lean), direction `(conn, dir)` -/
+def CapT.toSend (ip : String → Nat) (conn dir : Nat) (r : CapT) : Pcap.Send :=
+  { kind := .tcp, t := r.t.toNat, srcIp := ip r.src.addr, dstIp := ip r.dst.addr,
+    srcPort := r.src.port, dstPort := r.dst.port, conn := conn, dir := dir, payload := r.payload }
+
+theorem captureBody_of_capSeq (ip : String → Nat) (conn dir : Nat) (log : List CapT) :
+    ∀ (q : Nat) (c : Pcap.Ctrs), c (conn, dir) = q → CapSeq q log →
+      (log.map (CapT.bytes ip)).flatten = Pcap.captureBody c (log.map (CapT.toSend ip conn dir)) := by
+  induction log with
+  | nil => intro q c _ _; rfl
+  | cons r rest ih =>
+    intro q c hc h
+    simp only [List.map_cons, List.flatten_cons, Pcap.captureBody]
+    have hk : (CapT.toSend ip conn dir r).key = (conn, dir) := rfl
+    have he : Pcap.emit c (CapT.toSend ip conn dir r) =
+        (CapT.bytes ip r, c.set (conn, dir) ((q + r.payload.length) % 4294967296)) := by
+      simp only [Pcap.emit, CapT.toSend, Pcap.Send.key, Pcap.nextSeq, CapT.bytes, hc, h.1]
+    rw [he]
+    dsimp only
+    have hset : (c.set (conn, dir) ((q + r.payload.length) % 4294967296)) (conn, dir) = (q + r.payload.length) % 4294967296 := by
+      show (if (conn, dir) = (conn, dir) then _ else c (conn, dir)) = _
+      rw [if_pos rfl]
+    rw [ih ((q + r.payload.length) % 4294967296) _ hset h.2]
+
+theorem capFile_eq_capture (ip : String → Nat) (conn dir : Nat) (log : List CapT) (q : Nat) (h : CapSeq q log) :
+    capFile ip log = Pcap.capture (fun _ => q) (log.map (CapT.toSend ip conn dir)) := by
+  unfold capFile Pcap.capture
+  rw [captureBody_of_capSeq ip conn dir log q (fun _ => q) rfl h]
+
+/-! ### the packets on the wire are genuine -/
+
+theorem TS.fwdTy_startWriteE (c : TcpCfg) (s : TS) (t : Int) (op : WriteOp) :
+    ∀ p ∈ s5_fwdsOf (s.startWriteE c t op), p.ty = .payload := by
+  unfold TS.startWriteE TS.finishE
+  cases s.net.tcpWritePrep c.a op.bufs with
+  | error e => intro p hp; rw [(tcpWriteFinish_spec _ _ _ _).2] at hp; cases hp
+  | ok x =>
+    obtain ⟨hops, segs⟩ := x
+    cases segs with
+    | nil => intro p hp; rw [(tcpWriteFinish_spec _ _ _ _).2] at hp; cases hp
+    | cons seg rest =>
+      intro p hp
+      dsimp only at hp
+      cases hs : s.net.tcp? c.a with
+      | none => rw [tcpSendSeg_none _ _ _ _ _ hs] at hp; cases hp
+      | some sa => exact ((tcpSendSeg_spec _ _ _ _ _ sa hs).2 p hp).2.1
+
+theorem TS.fwdTy_wakeE (c : TcpCfg) (s : TS) (t : Int) : ∀ p ∈ s5_fwdsOf (s.wakeE c t), p.ty = .payload := by
+  unfold TS.wakeE
+  cases s.net.tcp? c.a with
+  | none => intro p hp; cases hp
+  | some sa =>
+    dsimp only
+    cases sa.sendH with
+    | none => intro p hp; cases hp
+    | some op => exact TS.fwdTy_startWriteE c _ t op
+
+theorem TS.fwdTy_runCtlE (c : TcpCfg) (s : TS) (t : Int)
+    (hres : ∀ sa, s.net.tcp? c.a = some sa → ∀ p ∈ sa.resend, p.ty = .payload) :
+    ∀ p ∈ s5_fwdsOf (s.runCtlE c t), p.ty = .payload := by
+  unfold TS.runCtlE TS.finishE
+  cases s.ctl with
+  | idle => intro p hp; cases hp
+  | resend n wb acked =>
+    cases n with
+    | zero =>
+      dsimp only
+      cases (s.net.tcpAckPost c.tp c.a wb acked).2 with
+      | false => intro p hp; cases hp
+      | true => exact TS.fwdTy_wakeE c _ t
+    | succ n =>
+      dsimp only
+      cases hr : s.net.tcpResendOne t c.a with
+      | none => intro p hp; cases hp
+      | some r =>
+        intro p hp
+        obtain ⟨sa, p0, rest, hsa, hres0, _, hfw⟩ := tcpResendOne_spec _ _ _ _ hr
+        rw [(hfw p hp).2.1]
+        exact hres sa hsa p0 (by rw [hres0]; simp)
+  | segs op hops rest acc =>
+    dsimp only
+    cases s.net.tcpWindowFull c.a with
+    | true => intro p hp; simp only [↓reduceIte] at hp; rw [(tcpWriteFinish_spec _ _ _ _).2] at hp; cases hp
+    | false =>
+      cases rest with
+      | nil => intro p hp; simp only [Bool.false_eq_true, ↓reduceIte] at hp; rw [(tcpWriteFinish_spec _ _ _ _).2] at hp; cases hp
+      | cons seg rest' =>
+        intro p hp
+        simp only [Bool.false_eq_true, ↓reduceIte] at hp
+        cases hs : s.net.tcp? c.a with
+        | none => rw [tcpSendSeg_none _ _ _ _ _ hs] at hp; cases hp
+        | some sa => exact ((tcpSendSeg_spec _ _ _ _ _ sa hs).2 p hp).2.1
+
+/-- what the writer's functions forward is a segment or the end-of-stream marker, never an ACK -/
+theorem TS.fwdTy_effsA (c : TcpCfg) (s : TS) (l : TLbl)
+    (hres : ∀ sa, s.net.tcp? c.a = some sa → ∀ p ∈ sa.resend, p.ty = .payload) :
+    ∀ p ∈ s5_fwdsOf (s.effsA c l), p.ty = .payload ∨ p.ty = .err := by
+  rcases s with ⟨net, bag, ctl, segs, written, accepted, delivered, eofAt, closed, mss0, posts⟩
+  cases l with
+  | write t op =>
+    cases ctl with
+    | idle =>
+      intro p hp
+      simp only [TS.effsA, s5_fwdsOf_append, (noCap_tcpAsyncWrite net c.a op).2, List.nil_append] at hp
+      exact Or.inl (TS.fwdTy_wakeE c _ t p hp)
+    | resend n wb acked => intro p hp; cases hp
+    | segs op' hops rest acc => intro p hp; cases hp
+  | run t => intro p hp; exact Or.inl (TS.fwdTy_runCtlE c _ t hres p hp)
+  | deliver t i tr =>
+    cases hb : bag[i]? with
+    | none => intro p hp; simp [TS.effsA, hb] at hp
+    | some p0 =>
+      cases hty : (p0.inTransit tr).ty with
+      | ack =>
+        cases ctl with
+        | idle =>
+          intro p hp
+          simp only [TS.effsA, hb, hty, (noCap_tcpIncoming_ack c.tp net t c.a _ hty).2] at hp
+          cases hp
+        | resend n wb acked => intro p hp; simp [TS.effsA, hb, hty] at hp
+        | segs op' hops rest acc => intro p hp; simp [TS.effsA, hb, hty] at hp
+      | payload => intro p hp; simp [TS.effsA, hb, hty] at hp
+      | err => intro p hp; simp [TS.effsA, hb, hty] at hp
+      | uninit => intro p hp; simp [TS.effsA, hb, hty] at hp
+      | syn => intro p hp; simp [TS.effsA, hb, hty] at hp
+      | synack => intro p hp; simp [TS.effsA, hb, hty] at hp
+  | drop i tr => intro p hp; cases hp
+  | read op => intro p hp; cases hp
+  | readNb caps => intro p hp; cases hp
+  | waitRead h => intro p hp; cases hp
+  | closeA t =>
+    cases ctl with
+    | idle =>
+      intro p hp
+      cases hs : net.tcp? c.a with
+      | none =>
+        have : (net.tcpClose t c.a).2 = [] := by rw [tcpClose_none net t c.a hs]
+        simp only [TS.effsA, this] at hp; cases hp
+      | some sa => exact Or.inr ((tcpClose_spec net t c.a sa hs).2.2.1 p hp).1
+    | resend n wb acked => intro p hp; cases hp
+    | segs op' hops rest acc => intro p hp; cases hp
+
+/-- the segment log only grows -/
+theorem TS.step_segs (c : TcpCfg) (s : TS) (l : TLbl) : ∃ x, (s.step c l).segs = s.segs ++ x := by
+  have hfin : ∀ (s : TS) op r, (s.finish c op r).segs = s.segs := fun _ _ _ => rfl
+  have hsw : ∀ (s : TS) t op, ∃ x, (s.startWrite c t op).segs = s.segs ++ x := by
+    intro s t op
+    unfold TS.startWrite
+    cases s.net.tcpWritePrep c.a op.bufs with
+    | error e => exact ⟨[], by simp [hfin]⟩
+    | ok x =>
+      obtain ⟨hops, segs⟩ := x
+      cases segs with
+      | nil => exact ⟨[], by simp [hfin]⟩
+      | cons seg rest => exact ⟨[seg], rfl⟩
+  have hwk : ∀ (s : TS) t, ∃ x, (s.wake c t).segs = s.segs ++ x := by
+    intro s t
+    unfold TS.wake
+    cases s.net.tcp? c.a with
+    | none => exact ⟨[], by simp⟩
+    | some sa =>
+      dsimp only
+      cases sa.sendH with
+      | none => exact ⟨[], by simp⟩
+      | some op => exact hsw _ t op
+  rcases s with ⟨net, bag, ctl, segs, written, accepted, delivered, eofAt, closed, mss0, posts⟩
+  cases l with
+  | write t op =>
+    cases ctl with
+    | idle => exact hwk _ t
+    | resend n wb acked => exact ⟨[], by simp [TS.step]⟩
+    | segs op' hops rest acc => exact ⟨[], by simp [TS.step]⟩
+  | run t =>
+    show ∃ x, (TS.runCtl c _ t).segs = segs ++ x
+    unfold TS.runCtl
+    cases ctl with
+    | idle => exact ⟨[], by simp⟩
+    | resend n wb acked =>
+      cases n with
+      | zero =>
+        dsimp only
+        cases (net.tcpAckPost c.tp c.a wb acked).2 with
+        | false => exact ⟨[], by simp⟩
+        | true => exact hwk _ t
+      | succ n =>
+        dsimp only
+        cases net.tcpResendOne t c.a with
+        | none => exact ⟨[], by simp⟩
+        | some r => exact ⟨[], by simp [TS.emit]⟩
+    | segs op hops rest acc =>
+      dsimp only
+      cases net.tcpWindowFull c.a with
+      | true => exact ⟨[], by simp [hfin]⟩
+      | false =>
+        cases rest with
+        | nil => exact ⟨[], by simp [hfin]⟩
+        | cons seg rest' => exact ⟨[seg], rfl⟩
+  | deliver t i tr =>
+    refine ⟨[], ?_⟩
+    simp only [TS.step, List.append_nil]
+    split
+    · rfl
+    · split
+      · split <;> rfl
+      · exact (TS.note_rest _ _).2.2.1
+      · exact (TS.note_rest _ _).2.2.1
+      · rfl
+  | drop i tr =>
+    refine ⟨[], ?_⟩
+    simp only [TS.step, List.append_nil]
+    split
+    · rfl
+    · split <;> rfl
+  | read op => exact ⟨[], by simp only [TS.step, List.append_nil]; exact (TS.note_rest _ _).2.2.1⟩
+  | readNb caps => exact ⟨[], by simp only [TS.step, List.append_nil]; exact (TS.note_rest _ _).2.2.1⟩
+  | waitRead h => exact ⟨[], by simp only [TS.step, List.append_nil]; exact (TS.note_rest _ _).2.2.1⟩
+  | closeA t =>
+    cases ctl with
+    | idle => exact ⟨[], by simp [TS.step, TS.emit]⟩
+    | resend n wb acked => exact ⟨[], by simp [TS.step]⟩
+    | segs op' hops rest acc => exact ⟨[], by simp [TS.step]⟩
+
+/-- every packet on the wire log is a segment carrying exactly the bytes the ghost `segs` holds
+    for its sequence number, or the (empty) end-of-stream marker -/
+def WireGenuine (segs : List (List UInt8)) (w : List (Int × Pkt)) : Prop :=
+  ∀ e ∈ w, (e.2.ty = .payload ∧ segs[e.2.id]? = some e.2.payload) ∨ (e.2.ty = .err ∧ e.2.payload = [])
+
+theorem CS.genuine_step (c : TcpCfg) (s : CS) (l : TLbl) (hI : TInv c s.ts)
+    (h : WireGenuine s.ts.segs s.wire) : WireGenuine (s.step c l).ts.segs (s.step c l).wire := by
+  have hI' : TInv c (s.ts.step c l) := hI.step l
+  obtain ⟨x, hx⟩ := TS.step_segs c s.ts l
+  intro e he
+  show (_ ∧ (s.ts.step c l).segs[e.2.id]? = _) ∨ _
+  change e ∈ s.wire ++ _ at he
+  rw [List.mem_append] at he
+  rcases he with he | he
+  · rcases h e he with ⟨h1, h2⟩ | h2
+    · left
+      refine ⟨h1, ?_⟩
+      rw [hx, List.getElem?_append_left (List.getElem?_eq_some_iff.mp h2).1]; exact h2
+    · exact Or.inr h2
+  · rw [List.mem_map] at he
+    obtain ⟨p, hp, rfl⟩ := he
+    have hres : ∀ sa, s.ts.net.tcp? c.a = some sa → ∀ p ∈ sa.resend, p.ty = .payload := by
+      intro sa hsa q hq
+      obtain ⟨sa', hsa', hao⟩ := hI.core.exA
+      rw [hsa] at hsa'; cases hsa'
+      exact (hao.resend q hq).1
+    have hty := TS.fwdTy_effsA c s.ts l hres p hp
+    obtain ⟨b0, _, hb, _⟩ := TS.step_emits c s.ts l
+    have hmem : p ∈ (s.ts.step c l).bag := by
+      rw [hb, TS.effs, s5_fwdsOf_append]
+      exact List.mem_append_right _ (List.mem_append_left _ hp)
+    rcases hI'.core.bag p hmem with (⟨h1, h2⟩ | ⟨h1, _, _, h4, _⟩) | ⟨h1, _⟩
+    · exact Or.inl ⟨h1, h2⟩
+    · exact Or.inr ⟨h1, h4⟩
+    · rcases hty with h | h <;> rw [h1] at h <;> cases h
+
+theorem CS.genuine_run (c : TcpCfg) (ls : List TLbl) :
+    ∀ (s : CS), TInv c s.ts → WireGenuine s.ts.segs s.wire →
+      WireGenuine (CS.run c s ls).ts.segs (CS.run c s ls).wire := by
+  induction ls with
+  | nil => intro s _ h; exact h
+  | cons l rest ih => intro s hI h; exact ih _ (hI.step l) (CS.genuine_step c s l hI h)
+
+theorem capOk_init (c : TcpCfg) (n : NetSt) (k : CapKey)
+    (hk : ConnAt n c.a k.cid k.idx k.src k.dst k.init) (hp : n.cfg.pcap = k.pcap) :
+    CapOk c.a k (CS.init c n).ts.net (CS.init c n).wire (CS.init c n).log :=
+  ⟨hp, by show ([] : List CapT) = _; cases k.pcap <;> rfl, trivial, Or.inr hk⟩
+
+
+/-- the segment size recorded at the start never changes -/
+theorem TS.run_mss0 (c : TcpCfg) : ∀ (ls : List TLbl) (s : TS), (TS.run c s ls).mss0 = s.mss0 := by
+  intro ls
+  induction ls with
+  | nil => intro s; rfl
+  | cons l rest ih =>
+    intro s
+    show (TS.run c (s.step c l) rest).mss0 = _
+    rw [ih]
+    have hfin : ∀ (s : TS) op r, (s.finish c op r).mss0 = s.mss0 := fun _ _ _ => rfl
+    have hsw : ∀ (s : TS) t op, (s.startWrite c t op).mss0 = s.mss0 := by
+      intro s t op; unfold TS.startWrite
+      cases s.net.tcpWritePrep c.a op.bufs with
+      | error e => rfl
+      | ok x => obtain ⟨hops, segs⟩ := x; cases segs <;> rfl
+    have hwk : ∀ (s : TS) t, (s.wake c t).mss0 = s.mss0 := by
+      intro s t; unfold TS.wake
+      cases s.net.tcp? c.a with
+      | none => rfl
+      | some sa => dsimp only; cases sa.sendH with
+        | none => rfl
+        | some op => exact hsw _ t op
+    rcases s with ⟨net, bag, ctl, segs, written, accepted, delivered, eofAt, closed, mss0, posts⟩
+    cases l with
+    | write t op => cases ctl with
+      | idle => exact hwk _ t
+      | resend a b d => rfl
+      | segs a b d e => rfl
+    | run t =>
+      show (TS.runCtl c _ t).mss0 = mss0
+      unfold TS.runCtl
+      cases ctl with
+      | idle => rfl
+      | resend a b d => cases a with
+        | zero => dsimp only; cases (net.tcpAckPost c.tp c.a b d).2 with
+          | false => rfl
+          | true => exact hwk _ t
+        | succ a => dsimp only; cases net.tcpResendOne t c.a <;> rfl
+      | segs a b d e => dsimp only; cases net.tcpWindowFull c.a with
+        | true => rfl
+        | false => cases d <;> rfl
+    | deliver t i tr =>
+      simp only [TS.step]
+      split
+      · rfl
+      · split
+        · split <;> rfl
+        · exact (TS.note_rest _ _).2.2.2.2.2.1
+        · exact (TS.note_rest _ _).2.2.2.2.2.1
+        · rfl
+    | drop i tr => simp only [TS.step]; split; rfl; split <;> rfl
+    | read op => simp only [TS.step]; exact (TS.note_rest _ _).2.2.2.2.2.1
+    | readNb caps => simp only [TS.step]; exact (TS.note_rest _ _).2.2.2.2.2.1
+    | waitRead hh => simp only [TS.step]; exact (TS.note_rest _ _).2.2.2.2.2.1
+    | closeA t => cases ctl <;> rfl
+
+/-- `ConnAt` as a decidable check (for concrete states) -/
+def connAtB (n : NetSt) (name : String) (cid idx : Nat) (src dst : Ep) (q : Nat) : Bool :=
+  match n.tcp? name, n.chan? cid with
+  | some s, some ch =>
+    s.chan == some cid && s.bound == src && ch.selfIdx src == idx && ch.ep (ch.remoteIdx src) == dst
+      && ch.sent idx == q
+  | _, _ => false
+
+theorem connAt_of_check (n : NetSt) (name : String) (cid idx : Nat) (src dst : Ep) (q : Nat)
+    (h : connAtB n name cid idx src dst q = true) : ConnAt n name cid idx src dst q := by
+  unfold connAtB at h
+  cases hs : n.tcp? name with
+  | none => rw [hs] at h; cases h
+  | some s =>
+    cases hc : n.chan? cid with
+    | none => rw [hs, hc] at h; cases h
+    | some ch =>
+      rw [hs, hc] at h
+      simp only [Bool.and_eq_true, beq_iff_eq] at h
+      exact ⟨s, ch, hs, h.1.1.1.1, hc, h.1.1.1.2, h.1.1.2, h.1.2, h.2⟩
+
+/-- the same label at another time -/
+def TLbl.atTime (t : Int) : TLbl → TLbl
+  | .write _ op => .write t op
+  | .run _ => .run t
+  | .deliver _ i tr => .deliver t i tr
+  | .closeA _ => .closeA t
+  | l => l
+
 end SimVerif
